@@ -270,7 +270,8 @@ TSched(t, rep, d) ==
             /\ stack' = Push(<<[Fr("tschedE", t) EXCEPT !.d = "nil"]>>)
        ELSE /\ UNCHANGED <<tcan, tint, pending, tarmed, texp, rdy, tst, trep, thow>>
             /\ stack' = Push(<<[Fr("tschedE", t) EXCEPT !.d = "cancelled"]>>)
-  /\ Emit([Z EXCEPT !.ev = "TSchedB", !.t = t, !.n = rep, !.d = d * TickUs, !.ts = now * TickUs])
+  /\ Emit([Z EXCEPT !.ev = "TSchedB", !.t = t, !.n = rep, !.d = d * TickUs, !.ts = now * TickUs,
+                     !.h = 1 + Cardinality({i \in DOMAIN hist : hist[i].ev = "TSchedB"})])
   /\ UNCHANGED <<interest, rop, wop, oclosed, dispatched, posts, ohow, rdata, rcount, peer, wfull, yanked, evfd, now,
                  inpoll, batch, bi, bphase, pq, nop, npost, drain, dpolls, done>>
 
@@ -477,7 +478,7 @@ PollStep ==
                    /\ tst' = [tst EXCEPT ![t] = "ready"]
                    /\ thow' = [thow EXCEPT ![t] = "none"]
                    /\ stack' = <<CbFrame("tm", t, FALSE)>> \o (IF trep[t] > 0 THEN <<Fr("rearm", t)>> ELSE <<>>)
-                   /\ Emit([Z EXCEPT !.ev = "TFireB", !.t = t, !.ts = now * TickUs, !.depth = 1])
+                   /\ Emit([Z EXCEPT !.ev = "TFireB", !.t = t, !.ts = now * TickUs, !.depth = 1, !.h = tm[t].sn])
              ELSE NoEvent /\ UNCHANGED <<tint, pending, texp, tst, stack, rdy, thow>>
           /\ UNCHANGED <<interest, rop, wop, oclosed, dispatched, posts, tcan, trep, ohow,
                          rdata, rcount, peer, wfull, yanked, tarmed, evfd, now, inpoll, batch, bphase, pq, needSample>>
@@ -627,7 +628,10 @@ PendingExact ==
 \* the descriptor) and its callback runs one level deeper - the monitor reports that as C14/depth/reg.
 DepthBound == (Class = "chain" /\ bad = "") => Cardinality({k \in DOMAIN stack : stack[k].k = "cb"}) <= Limit + 1
 
-View == <<libvars, envvars, ctlvars, rpin, rpdone, monvars>>
+\* the numbering of Schedule* calls (which closure a timer holds) depends on the path, not on what can happen next
+TmView == [t \in DOMAIN tm |-> [tm[t] EXCEPT !.sn = 0, !.attsn = 0]]
+View == <<libvars, envvars, ctlvars, rpin, rpdone,
+          <<kinds, cls, lim, base, ost, ops, csnap, TmView, posted, ranp, anomaly, rnext, bad>>>>
 
 IsCmdEv(e) == e.ev \in {"Call", "CancelB", "CloseB", "PostE", "TSchedB", "TCancelE", "TCloseE", "Env", "PollB"}
 
